@@ -350,3 +350,35 @@ def push_returns(func_node):
     fn.body = body[:-1]
     ast.fix_missing_locations(fn)
     return fn
+
+
+
+def dup_tail(func_node):
+    """Tail duplication: `if c: A  else: B` followed by straight-line statements T ending in `return E` becomes `if c: A; T  else: B; T` (recursively through
+    elif chains; arms that already leave the function are left alone).  Always behaviour-preserving; the single-exit form with result variables assigned in
+    both arms then reads as the early-return form: each path has its own straight-line definitions in front of its own return.  Returns a deep copy."""
+    fn = copy.deepcopy(func_node)
+
+    def leaves_done(stmts):
+        return bool(stmts) and isinstance(stmts[-1], (ast.Return, ast.Raise))
+
+    def rewrite(body):
+        for i, st in enumerate(body):
+            if isinstance(st, ast.If) and st.orelse and i + 1 < len(body):
+                tail = body[i + 1:]
+                if not isinstance(tail[-1], ast.Return) or len(tail) > 4 or any(isinstance(x, (ast.If, ast.For, ast.While, ast.Try, ast.With)) for x in tail):
+                    continue
+
+                def fill(iff):
+                    if not leaves_done(iff.body):
+                        iff.body = rewrite(iff.body + copy.deepcopy(tail))
+                    if len(iff.orelse) == 1 and isinstance(iff.orelse[0], ast.If) and iff.orelse[0].orelse:
+                        fill(iff.orelse[0])
+                    elif not leaves_done(iff.orelse):
+                        iff.orelse = rewrite(iff.orelse + copy.deepcopy(tail))
+                fill(st)
+                return body[:i + 1]
+        return body
+    fn.body = rewrite(fn.body)
+    ast.fix_missing_locations(fn)
+    return fn
